@@ -9,6 +9,8 @@ def dispatch (req : Json) : Except String Json := do
   let op ← (← req.getObjVal? "op").getStr?
   match op with
   | "cdp" => handleCdp req
+  | "em" => handleEM req
+  | "scale" => handleScale req
   | _ => throw s!"unknown op {op}"
 
 def respond (line : String) : String :=
